@@ -96,9 +96,15 @@ def make_job_fn(check):
             for v in check.prepare(wl, ctx, stats) or []:
                 v.update({"workload": wl, "config": v.get("config", {}), "decisions": [], "index": j, "variant": -1})
                 stats["violations"].append(v)
-        for k in range(job["variants"]):
+        n_variants = job["variants"]
+        if hasattr(check, "variants_for") and not job.get("fixed_variants"):
+            # the number of runs per workload is a function of the workload (its kind's cost), not of the
+            # machine's speed: a batch explores the same runs wherever it executes.  The wall budget below
+            # is only a safety net.
+            n_variants = check.variants_for(wl, tier)
+        for k in range(n_variants):
             if time.time() - t0 > budget and k >= job.get("min_variants", 8):
-                stats["skipped"]["variants_cut_by_wall_budget"] += job["variants"] - k
+                stats["skipped"]["variants_cut_by_wall_budget"] += n_variants - k
                 break
             rs = run_seed(vseed, prop + f"/run/{j}", k)
             r = random.Random(rs)
@@ -134,7 +140,7 @@ def make_job_fn(check):
                 for site, order in lst or []:
                     kind = wl["entry"] + ":" + site.split("/")[-1].rstrip("0123456789") + ":" + label
                     stats["interleavings"].setdefault(kind, set()).add(hashlib.sha256(str(order).encode()).hexdigest()[:12])
-            if len(stats["samples"]) < 1 and (not trivial or k == job["variants"] - 1):
+            if len(stats["samples"]) < 1 and (not trivial or k == n_variants - 1):
                 stats["samples"].append({
                     "workload": wl, "config": cfg, "decisions": dec.log[:12],
                     "deliveries": [[s, list(o)] for s, o in (out.deliveries or [])][:3],
@@ -462,7 +468,7 @@ def emit_digests(check, tier, njobs, variants):
     seams.install()
     seed = report.verif_seed()
     plan = check.PLAN[tier]
-    jobs = [{"index": j, "tier": tier, "seed": seed, "variants": variants, "wall_budget": 1e9, "min_variants": variants}
+    jobs = [{"index": j, "tier": tier, "seed": seed, "variants": variants, "wall_budget": 1e9, "min_variants": variants, "fixed_variants": True}
             for j in range(njobs)]
     results = batch.run_jobs(make_job_fn(check), jobs, wall_limit=3000.0, per_job_limit=1500.0, init=_init_child)
     return {str(j): r["digests"] for j, r in enumerate(results)}
